@@ -1,15 +1,16 @@
 //go:build verif && go1.18
 
 // Package c18: gossip is bounded, processed once per agent and never self-addressed.
-//  (1) routing: the real Agent.Send / route / Topology for EVERY topology of up to 3 other peers over
-//      3 roles, every source, TTL 0..3 and EVERY shuffle permutation;
-//  (2) dissemination: explicit-state BFS over a 4-agent network (two agents share a role) with the
-//      real Send, Message encoding and BatchProcessor.wasProcessed at every hop, every delivery
-//      order, duplicate deliveries and every shuffle choice;
-//  (3) at-most-once: the real BatchProcessor loop and message buses under the controlled scheduler,
-//      the same batch delivered 1..3 times from 1..2 peers plus a second batch;
-//  (4) topology under concurrent joins, leaves, updates and sends: controlled scheduler (locks as
-//      scheduling points) and a free-running -race pass (TestC18Race).
+//
+//	(1) routing: the real Agent.Send / route / Topology for EVERY topology of up to 3 other peers over
+//	    3 roles, every source, TTL 0..3 and EVERY shuffle permutation;
+//	(2) dissemination: explicit-state BFS over a 4-agent network (two agents share a role) with the
+//	    real Send, Message encoding and BatchProcessor.wasProcessed at every hop, every delivery
+//	    order, duplicate deliveries and every shuffle choice;
+//	(3) at-most-once: the real BatchProcessor loop and message buses under the controlled scheduler,
+//	    the same batch delivered 1..3 times from 1..2 peers plus a second batch;
+//	(4) topology under concurrent joins, leaves, updates and sends: controlled scheduler (locks as
+//	    scheduling points) and a free-running -race pass (TestC18Race).
 package c18
 
 import (
@@ -44,6 +45,9 @@ var portSeq = 13000
 func newAgent(name, role string) *gossip.Agent {
 	conf := gossip.DefaultConfig()
 	portSeq++
+	if portSeq > 60000 {
+		portSeq = 13001 // the address is only parsed: the agent is never started
+	}
 	conf.NodeName, conf.Role, conf.BindAddr = name, role, fmt.Sprintf("127.0.0.1:%d", portSeq)
 	a, err := gossip.NewAgentFromConfig(conf)
 	if err != nil {
@@ -147,8 +151,19 @@ type sent struct {
 	wire []byte
 }
 
+// batchPayload: id < 100: one snapshot; 100..999: 8 snapshots (more than a kilobyte encoded); >= 1000:
+// 500 snapshots (what a loaded server's sender emits).
 func batchPayload(id int) []byte {
-	b := &protocol.BatchSnapshots{Snapshots: []*protocol.SignedSnapshot{{Snapshot: &protocol.Snapshot{EventDigest: hashing.Digest(hx.SeqDigest(id)), HistoryDigest: hashing.Digest(hx.SeqDigest(id + 50)), HyperDigest: hashing.Digest(hx.SeqDigest(id + 90)), Version: uint64(id)}, Signature: []byte{byte(id), 1, 2}}}}
+	n := 1
+	if id >= 1000 {
+		n = 500
+	} else if id >= 100 {
+		n = 8
+	}
+	b := &protocol.BatchSnapshots{}
+	for k := 0; k < n; k++ {
+		b.Snapshots = append(b.Snapshots, &protocol.SignedSnapshot{Snapshot: &protocol.Snapshot{EventDigest: hashing.Digest(hx.SeqDigest(id + k)), HistoryDigest: hashing.Digest(hx.SeqDigest(id + k + 50)), HyperDigest: hashing.Digest(hx.SeqDigest(id + k + 90)), Version: uint64(id + k)}, Signature: append([]byte{byte(id), byte(k), 2}, hx.SeqDigest(id+k+7)...)})
+	}
 	p, _ := b.Encode()
 	return p
 }
@@ -326,8 +341,8 @@ func (t nullTasks) Add(task gossip.Task) error {
 func (t nullTasks) Len() int { return 0 }
 
 type dEvent struct {
-	Kind string `json:"kind"` // deliver | redeliver
-	I    int    `json:"index"` // index into the pending list
+	Kind string           `json:"kind"`              // deliver | redeliver
+	I    int              `json:"index"`             // index into the pending list
 	Perm map[string][]int `json:"shuffle,omitempty"` // the permutation applied to each peer list during this hop
 }
 
@@ -444,9 +459,11 @@ func (n *net) canon() string {
 	return strings.Join(ps, ",") + "|" + strings.Join(ts, ",")
 }
 
+var netBatch = 7
+
 func replayNet(r *ev.Run, first int, ttl int, path []dEvent) (*net, bool) {
 	n := newNet()
-	msg := &gossip.Message{Kind: gossip.BatchMessageType, TTL: ttl, Payload: batchPayload(7)}
+	msg := &gossip.Message{Kind: gossip.BatchMessageType, TTL: ttl, Payload: batchPayload(netBatch)}
 	w, _ := msg.Encode()
 	n.pending = []flight{{first, w, ttl}}
 	for _, e := range path {
@@ -482,75 +499,81 @@ func dissemination(r *ev.Run) {
 		maxTTL = 4
 	}
 	states, transitions := 0, 0
-	for first := 0; first < 2; first++ {
-		for ttl := 0; ttl <= maxTTL; ttl++ {
-			type node struct{ path []dEvent }
-			level := []node{{nil}}
-			seen := map[string]bool{}
-			for depth := 0; len(level) > 0; depth++ {
-				if depth > 40 {
-					r.Violation("dissemination of a batch does not terminate (delivery depth exceeds the horizon)", map[string]int{"ttl": ttl})
-					break
-				}
-				var next []node
-				for _, nd := range level {
-					n, ok := replayNet(r, first, ttl, nd.path)
-					if !ok {
-						continue
+	for _, nb := range []int{7, 107} { // a one-snapshot batch and an eight-snapshot one
+		netBatch = nb
+		for first := 0; first < 2; first++ {
+			if nb != 7 && first == 1 {
+				continue
+			}
+			for ttl := 0; ttl <= maxTTL; ttl++ {
+				type node struct{ path []dEvent }
+				level := []node{{nil}}
+				seen := map[string]bool{}
+				for depth := 0; len(level) > 0; depth++ {
+					if depth > 40 {
+						r.Violation("dissemination of a batch does not terminate (delivery depth exceeds the horizon)", map[string]int{"ttl": ttl})
+						break
 					}
-					// invariants of this state
-					for i, t := range n.tasks {
-						for _, c := range t {
-							if c > 1 {
-								r.Violation("an agent runs its tasks for the same batch more than once", map[string]interface{}{"agent": i, "path": nd.path})
-							}
+					var next []node
+					for _, nd := range level {
+						n, ok := replayNet(r, first, ttl, nd.path)
+						if !ok {
+							continue
 						}
-					}
-					var evs []dEvent
-					for i := range n.pending {
-						evs = append(evs, dEvent{Kind: "deliver", I: i})
-					}
-					if n.last != nil && countKind(nd.path, "redeliver") < 2 {
-						evs = append(evs, dEvent{Kind: "redeliver"})
-					}
-					for _, e := range evs {
-						// every shuffle choice of this hop
-						ch := newPermEnum()
-						for {
-							m, ok := replayNet(r, first, ttl, nd.path)
-							if !ok {
-								break
-							}
-							e2 := e
-							m.path = append(m.path, e2)
-							var f flight
-							if e.Kind == "deliver" {
-								f = m.pending[e.I]
-								m.pending = append(append([]flight{}, m.pending[:e.I]...), m.pending[e.I+1:]...)
-								m.last = &f
-							} else {
-								f = *m.last
-							}
-							okh := m.hop(r, f, ch)
-							transitions++
-							e2.Perm = ch.snapshot()
-							if okh {
-								key := m.canon()
-								if !seen[key] {
-									seen[key] = true
-									states++
-									next = append(next, node{append(append([]dEvent{}, nd.path...), e2)})
+						// invariants of this state
+						for i, t := range n.tasks {
+							for _, c := range t {
+								if c > 1 {
+									r.Violation("an agent runs its tasks for the same batch more than once", map[string]interface{}{"agent": i, "path": nd.path})
 								}
 							}
-							if !ch.next() {
-								break
+						}
+						var evs []dEvent
+						for i := range n.pending {
+							evs = append(evs, dEvent{Kind: "deliver", I: i})
+						}
+						if n.last != nil && countKind(nd.path, "redeliver") < 2 {
+							evs = append(evs, dEvent{Kind: "redeliver"})
+						}
+						for _, e := range evs {
+							// every shuffle choice of this hop
+							ch := newPermEnum()
+							for {
+								m, ok := replayNet(r, first, ttl, nd.path)
+								if !ok {
+									break
+								}
+								e2 := e
+								m.path = append(m.path, e2)
+								var f flight
+								if e.Kind == "deliver" {
+									f = m.pending[e.I]
+									m.pending = append(append([]flight{}, m.pending[:e.I]...), m.pending[e.I+1:]...)
+									m.last = &f
+								} else {
+									f = *m.last
+								}
+								okh := m.hop(r, f, ch)
+								transitions++
+								e2.Perm = ch.snapshot()
+								if okh {
+									key := m.canon()
+									if !seen[key] {
+										seen[key] = true
+										states++
+										next = append(next, node{append(append([]dEvent{}, nd.path...), e2)})
+									}
+								}
+								if !ch.next() {
+									break
+								}
 							}
 						}
 					}
+					level = next
 				}
-				level = next
+				r.Outcome(fmt.Sprintf("batch=%d first=%d ttl=%d states=%d", nb, first, ttl, len(seen)))
 			}
-			r.Outcome(fmt.Sprintf("first=%d ttl=%d states=%d", first, ttl, len(seen)))
 		}
 	}
 	r.States(states)
@@ -764,7 +787,8 @@ func TestC18(t *testing.T) {
 	if r.Thorough() {
 		bound = 3
 	}
-	amo := []ascenario{{[][]int{{1}}}, {[][]int{{1, 1}}}, {[][]int{{1, 1, 1}}}, {[][]int{{1}, {1}}}, {[][]int{{1, 1}, {1}}}, {[][]int{{1, 2}, {1}}}, {[][]int{{1, 2}, {2, 1}}}}
+	amo := []ascenario{{[][]int{{1}}}, {[][]int{{1, 1}}}, {[][]int{{1, 1, 1}}}, {[][]int{{1}, {1}}}, {[][]int{{1, 1}, {1}}}, {[][]int{{1, 2}, {1}}}, {[][]int{{1, 2}, {2, 1}}},
+		{[][]int{{100, 100}}}, {[][]int{{100, 1}, {100}}}, {[][]int{{1000, 1000}}}}
 	for i, s := range amo {
 		if r.Mine(2 + i) {
 			explore(r, fmt.Sprintf("at-most-once %v", s.Deliveries), bound, amoBody(s), s)
